@@ -211,8 +211,13 @@ def dot_product_attention(
   ), 'q, k, v num_heads must match.'
   assert key.shape[-3] == value.shape[-3], 'k, v lengths must match.'
 
-  # Criteria that invoke the more optimized dot product attention
-  if dropout_rate == 0.0 and module == None:
+  # Criteria that invoke the more optimized dot product attention (which needs
+  # the value depth to equal the query / key depth)
+  if (
+    dropout_rate == 0.0
+    and module == None
+    and value.shape[-1] == query.shape[-1]
+  ):
     # make sure qkv batch are compressed to one dim
     query_shape = query.shape
     if len(query_shape) > 4:
